@@ -21,7 +21,7 @@ def gen(seed, tier):
             pid = "c%d" % n
             n += 1
             spec = {"id": pid, "flavour": fl, "steps": [["hb", rng.choice([0.25, 0.5, 1.0]), None, rng.randint(0, 6)]], "hb": True}
-            via = rng.choice(["queued", "service-pre", "adopt-driver", "adopt-payload", "service-late"])
+            via = rng.choice(["queued", "service-pre", "adopt-driver", "adopt-payload", "service-late", "adopt-private-loop"])
             if via in ("queued", "service-pre"):
                 spec["via"] = via
             elif via == "adopt-driver":
@@ -30,6 +30,10 @@ def gen(seed, tier):
             elif via == "service-late":
                 spec["via"] = "service"
                 dscript += [["sleep", rng.choice([0.0, 0.1, 0.4])], ["create-service", pid]]
+            elif via == "adopt-private-loop":
+                # submitted by a thread payload from inside an asyncio event loop of its own
+                spec["via"] = "adopt"
+                payloads.append({"id": "par" + pid, "flavour": "threading", "via": "queued", "steps": [["sleep", rng.choice([0.0, 0.2])], ["private-loop", [["adopt", pid], ["sleep", rng.choice([0.5, 2.0])]]], ["return", "none"]]})
             else:
                 spec["via"] = "adopt"
                 payloads.append({"id": "par" + pid, "flavour": rng.choice(FL), "via": "queued", "steps": [["sleep", rng.choice([0.0, 0.2])], ["adopt", pid], ["sleep", 0.1], ["return", "none"]]})
